@@ -443,8 +443,17 @@ func (p *untypedParamBinder) tryUnmarshaler(target reflect.Value, defaultValue i
 	// When a type implements encoding.TextUnmarshaler we'll use that instead of reflecting some more
 	if reflect.PtrTo(target.Type()).Implements(textUnmarshalType) {
 		if defaultValue != nil && len(data) == 0 {
-			target.Set(reflect.ValueOf(defaultValue))
-			return true, nil
+			defVal := reflect.ValueOf(defaultValue)
+			if defVal.Type().AssignableTo(target.Type()) {
+				target.Set(defVal)
+				return true, nil
+			}
+			// a default that comes from a JSON or YAML document is the text form of the value
+			text, isText := defaultValue.(string)
+			if !isText {
+				return true, fmt.Errorf("default value of type %T cannot be used as %s", defaultValue, target.Type())
+			}
+			data = text
 		}
 		value := reflect.New(target.Type())
 		if err := value.Interface().(encoding.TextUnmarshaler).UnmarshalText([]byte(data)); err != nil {
@@ -483,6 +492,9 @@ func (p *untypedParamBinder) setSliceFieldValue(target reflect.Value, defaultVal
 		return nil
 	}
 	if sz == 0 {
+		if defaultValue != nil && !defVal.Type().AssignableTo(target.Type()) {
+			return p.setSliceDefault(target, defVal)
+		}
 		target.Set(defVal)
 		return nil
 	}
@@ -498,4 +510,45 @@ func (p *untypedParamBinder) setSliceFieldValue(target reflect.Value, defaultVal
 	target.Set(value)
 
 	return nil
+}
+
+// setSliceDefault sets target to a default that is not of the target's slice type already: the
+// []interface{} that a JSON or YAML document yields. Items are converted the way scalar defaults are.
+func (p *untypedParamBinder) setSliceDefault(target, defVal reflect.Value) error {
+	if defVal.Kind() != reflect.Slice {
+		return errors.InvalidType(p.Name, p.parameter.In, typeArray, defVal.Interface())
+	}
+	value := reflect.MakeSlice(target.Type(), defVal.Len(), defVal.Len())
+	for i := 0; i < defVal.Len(); i++ {
+		item, elem := defVal.Index(i), value.Index(i)
+		if item.Kind() == reflect.Interface {
+			item = item.Elem()
+		}
+		switch {
+		case !item.IsValid():
+			return errors.InvalidType(p.Name, p.parameter.In, typeArray, defVal.Interface())
+		case item.Type().AssignableTo(elem.Type()):
+			elem.Set(item)
+		case item.Kind() == reflect.String:
+			if err := p.setFieldValue(elem, nil, item.String(), true); err != nil {
+				return err
+			}
+		case isNumericKind(item.Kind()) && isNumericKind(elem.Kind()):
+			elem.Set(item.Convert(elem.Type()))
+		default:
+			return errors.InvalidType(p.Name, p.parameter.In, typeArray, defVal.Interface())
+		}
+	}
+	target.Set(value)
+	return nil
+}
+
+func isNumericKind(k reflect.Kind) bool {
+	switch k { //nolint:exhaustive // numeric kinds only
+	case reflect.Int, reflect.Int8, reflect.Int16, reflect.Int32, reflect.Int64,
+		reflect.Uint, reflect.Uint8, reflect.Uint16, reflect.Uint32, reflect.Uint64,
+		reflect.Float32, reflect.Float64:
+		return true
+	}
+	return false
 }
